@@ -79,6 +79,8 @@ def more_hostile(rng, quick):
 def c05_images(ctx, rng, for_search=False):
     quick = ctx.quick
     imgs = G.hostile(rng, quick) + more_hostile(rng, quick) + compressible_big(rng, quick)
+    rep = G.repeated_structures(rng, quick)
+    imgs += rep if for_search else [r for r in rep if len(r.field) < 400000]      # the model gets the compressible ones
     if not quick or for_search:
         imgs += G.big_streams(rng, quick=True)[:9]          # incompressible text / random data
     for fmt in G.FORMATS:
@@ -143,7 +145,8 @@ def correspondence(ctx):
                 continue
             spent += c
             # trace = the region table (offset, length, held) after every chunk
-            pairs.append(G.Pair(img, sizes, tag, trace=len(sizes) <= 3000, poke=rng.random() < 0.3))
+            feed, ctor = G.pick_presentation(img.fmt, rng, 0.4)
+            pairs.append(G.Pair(img, sizes, tag, trace=len(sizes) <= 3000, poke=rng.random() < 0.3, feed=feed, ctor=ctor))
     peak = {}
 
     def on(p, impl):
@@ -165,7 +168,7 @@ def correspondence(ctx):
 # --------------------------------------------------------------------------
 # failing-input search: sum(context_info.values()) <= bound after every chunk, on the real inspector
 
-def watch(fmt, data, sizes):
+def watch(fmt, data, sizes, feed='bytes', ctor=None):
     """(largest sum(context_info.values()) seen, index of the chunk after which it was seen, position)"""
     best = [0, -1, 0]
     k = [0]
@@ -175,35 +178,65 @@ def watch(fmt, data, sizes):
         if s > best[0]:
             best[:] = [s, k[0], pos]
         k[0] += 1
-    _, _, insp = G.impl_run(fmt, data, sizes, every_chunk=every)
+    _, _, insp = G.impl_run(fmt, data, sizes, every_chunk=every, feed=feed, ctor=ctor)
     s = sum(insp.context_info.values())          # after finish()
     if s > best[0]:
         best[:] = [s, k[0], len(data)]
     return best
 
 
-def check_image(ctx, img, fam, fails):
+def presentations_for(ctx, img, tag, sizes, thorough_all):
+    """how one chunking is presented: always plainly; with every other combination of the public constructor
+    arguments (tracing=True) always for the hostile families and on a sample otherwise; as a reused bytearray /
+    memoryview on the coarse chunkings and a sample of the rest"""
+    rng = ctx.rng
+    out = [('bytes', {})]
+    hostile = img.tag.startswith(('hostile/', 'repeat/', 'sweep/', 'seed'))
+    for c in G.ctor_variants(img.fmt)[1:]:
+        if thorough_all or hostile or rng.random() < 0.3:
+            out.append(('bytes', c))
+    if thorough_all or tag in ('one', 'fixed65536', 'seed') or rng.random() < 0.1:
+        f = rng.choice(G.FEEDS[1:])
+        out.append((f, rng.choice(G.ctor_variants(img.fmt))))
+    return out
+
+
+def check_image(ctx, img, fam, fails, thorough_all=False):
     lim = G.bound(img.fmt)
     for tag, sizes in fam:
-        ctx.evaluations += 1
         ctx.count('search/chunking/' + tag)
-        peak, k, pos = watch(img.fmt, img.data, sizes)
-        ctx.count('search/peak/%s/%s' % (img.fmt, 'over-half-bound' if peak > lim // 2 else 'small'))
-        if peak > lim:
+        for feed, ctor in presentations_for(ctx, img, tag, sizes, thorough_all):
+            ctx.evaluations += 1
+            if feed != 'bytes' or ctor:
+                ctx.count('search/presentation/%s%s' % (feed, ''.join('+%s=%s' % kv for kv in sorted(ctor.items()))))
+            peak, k, pos = watch(img.fmt, img.data, sizes, feed, ctor)
+            ctx.count('search/peak/%s/%s' % (img.fmt, 'over-half-bound' if peak > lim // 2 else 'small'))
+            if peak <= lim:
+                continue
             # smallest prefix + simplest chunking that still exceeds the bound
             data, small = img.data[:pos], G.fixed(pos, 65536)
-            if watch(img.fmt, data, small)[0] <= lim:
+            if watch(img.fmt, data, small, feed, ctor)[0] <= lim:
                 small = [s for s in sizes[:k + 1]]
                 small[-1] -= sum(small) - pos
-            elif watch(img.fmt, data, [pos])[0] > lim:
+            elif watch(img.fmt, data, [pos], feed, ctor)[0] > lim:
                 small = [pos]
-            peak2 = watch(img.fmt, data, small)[0]
+            if not ctor or watch(img.fmt, data, small, feed, {})[0] > lim:
+                ctor = {}                     # the constructor argument is not needed
+            if feed != 'bytes' and watch(img.fmt, data, small, 'bytes', ctor)[0] > lim:
+                feed = 'bytes'
+            peak2 = watch(img.fmt, data, small, feed, ctor)[0]
             sub = G.Img(img.fmt, data, [], img.tag)
-            fails.append(Failure({'kind': 'insp', 'fmt': img.fmt, 'content': sub.field, 'length': len(data),
-                                  'sizes': G.pack_sizes(small), 'tag': img.tag},
-                                 {'kind': 'retained-bytes-exceed-the-bound',
-                                  'what': '%s inspector holds %d bytes (context_info) after %d of %d stream bytes; the bound is %d'
-                                          % (img.fmt, peak2, len(data), len(img.data), lim)}))
+            case = {'kind': 'insp', 'fmt': img.fmt, 'content': sub.field, 'length': len(data),
+                    'sizes': G.pack_sizes(small), 'tag': img.tag}
+            if feed != 'bytes':
+                case['feed'] = feed
+            if ctor:
+                case['ctor'] = ctor
+            fails.append(Failure(case, {
+                'kind': 'retained-bytes-exceed-the-bound',
+                'what': '%s(%s) inspector holds %d bytes (context_info) after %d of %d stream bytes%s; the bound is %d'
+                        % (img.fmt, ', '.join('%s=%s' % kv for kv in sorted(ctor.items())), peak2, len(data), len(img.data),
+                           '' if feed == 'bytes' else ' presented as ' + feed, lim)}))
             return True
     return False
 
@@ -273,9 +306,9 @@ def search(ctx, seeds, full=False):
     fails = []
     for s in [s for s in seeds if s.get('kind') == 'insp'][:40]:
         data = G.decode_content(s['content'])
-        img = G.Img(s['fmt'], data, [64, 512, G.H, 256 * G.K], s.get('tag', 'seed'))
+        img = G.Img(s['fmt'], data, [64, 512, G.H, 256 * G.K], 'seed: ' + s.get('tag', ''))
         # the disagreeing stream, and the same header followed by enough data to fill whatever it announces
-        check_image(ctx, img, [('seed', G.unpack_sizes(s['sizes']))] + c05_family(img, rng, ctx.quick, False), fails)
+        check_image(ctx, img, [('seed', G.unpack_sizes(s['sizes']))] + c05_family(img, rng, ctx.quick, False), fails, thorough_all=True)
         ext = G.Img(s['fmt'], data + bytes([data[-1] if data else 0]) * (2 << 20), img.bounds, img.tag + '+2MiB')
         check_image(ctx, ext, c05_family(ext, rng, ctx.quick, False), fails)
         if len(fails) >= 5:
@@ -308,10 +341,12 @@ def replay(ctx, payload):
     data = G.decode_content(case['content'])
     sizes = G.unpack_sizes(case['sizes'])
     fmt = case['fmt']
-    peak, k, pos = watch(fmt, data, sizes)
-    impl = insp_impl.run_insp(fmt, data, sizes, trace=len(sizes) <= 200)[0]
+    feed, ctor = case.get('feed', 'bytes'), case.get('ctor') or {}
+    peak, k, pos = watch(fmt, data, sizes, feed, ctor)
+    impl = G.run_insp_x(fmt, data, sizes, trace=len(sizes) <= 200, feed=feed, ctor=ctor)
     model = ctx.driver.ask(G.insp_line(fmt, case['content'], sizes, len(sizes) <= 200))
-    print('%s, %d bytes, %d chunk(s) %s' % (fmt, len(data), len(sizes), case['sizes'][:10]))
+    print('%s(%s), %d bytes, %d chunk(s) %s, presented as %s' % (fmt, ', '.join('%s=%s' % kv for kv in sorted(ctor.items())),
+                                                               len(data), len(sizes), case['sizes'][:10], feed))
     print('implementation:', impl[-1500:])
     print('model         :', model[-1500:])
     print('property oracle on the implementation: largest sum(context_info.values()) = %d after chunk %d (position %d); bound %d -> %s'
